@@ -33,22 +33,24 @@ from fractions import Fraction
 from corr.harness import coq_build, run_model, exc_name, _run, VERIF, REPO
 
 TB = [
-    "Pillow (format sniffing, pixel size, the dpi entry of Image.info) is outside the model: what it reports for each "
-    "byte string is an input of the model (the check obtains it by calling PIL.Image.open itself)",
+    "Pillow (format sniffing, pixel size, the dpi entry of Image.info, whether tag 282 is in tag_v2) is outside the model: "
+    "what it reports for each byte string is an input of the model (the check obtains it by calling PIL.Image.open itself); "
+    "the EMF header test of Image.ext is computed by the model on the bytes",
     "hashlib.sha1 is not modelled: the digest is a parameter H of the model; the runner instantiates it with the identity "
     "(same digest iff same bytes), so the correspondence also checks that the implementation deduplicates exactly by byte equality",
     "model/Image.v fl64 (round to nearest even, 53-bit significand, unbounded exponent) stands for one CPython binary64 "
     "operation (int/int true division, float*float, float/float, float(int)); its error bound, exactness on integers up to "
     "2^53 and extensionality are proved (C15_fl64_premises); that CPython computes this function is validated bit-exactly on "
     "random quotients and products in every run, not proved",
-    "tx/tx_c15.py (translator: the ext_map dict literal of Image.ext by AST, image_content_types, default_content_types, "
-    "the ImagePart rows of PartFactory.part_type_for by import)",
+    "tx/tx_c15.py (translator: Image.ext by AST -- dict literal, header rules before the lookup, membership test, lookup -- and "
+    "Image._pil_props by AST -- straight-line code plus dpi-drop rules --, any other statement lands in unmodelled; "
+    "image_content_types, default_content_types, the ImagePart rows of PartFactory.part_type_for by import)",
     "PackUri.idx / PackUri.ext of model/PackUri.v (C19) are reused for partname.idx and partname.ext; dict, sorted, enumerate, "
     "%d formatting and Python truthiness of None/0 are transcribed",
     "save followed by load is taken to return every reachable part with the same name, bytes and content type (that is C01); "
     "the class of a loaded part is chosen from its content type (PartFactory), as modelled by reload_part",
-    "blobs longer than 12000 bytes (corpus decks only) travel to the model as a stand-in (length + SHA-256 computed by the "
-    "harness): the model only compares blobs for equality and hands them back",
+    "blobs longer than 12000 bytes (corpus images, the bundled EMF icons) travel to the model as a stand-in (first 64 bytes + "
+    "length + SHA-256 computed by the harness): the model only compares blobs for equality, reads bytes 40..44 and hands them back",
 ]
 ASSUME = [
     "int(914400 * px / dpi) is modelled as truncation of the exact quotient; C15_native_float proves the binary64 quotient "
@@ -1175,3 +1177,11 @@ def replay(rec):
         return 0 if (mres == outs and mstore == deck.final_store() and not c.hits) else 1
     finally:
         shutil.rmtree(tmp, ignore_errors=True)
+
+
+CLAIM = {
+    "tech": "Coq proof over a Gallina model of the image store (digest index, part-name and rId allocation, Pillow-format/extension/content-type tables, dpi normalisation, native size, scale) over all operation histories + tables and source rules regenerated by a translator each run + extracted-model correspondence on real decks + independent header-reading oracle on the saved zip",
+    "text": "31 theorems closed under the global context: for any history from any state meeting the invariant (unique names, unique digests among indexed image parts, class by content type) an added image ends up as exactly one indexed part with the reported name/extension/content type (C15_once, C15_same_part, C15_distinct, C15_bytes, C15_new_part, C15_preserved), re-opening is the identity on the store so the rebuilt digest index answers as before (C15_reopen), every extension Image.ext can return incl. emf has its content type as the unique Default row and maps to ImagePart (C15_tables over gen/GenC15.v, C15_tables_match, C15_rules_match, C15_emf_by_header), normalised dpi always in 1..2048 (C15_dpi), native size = floor(914400*px/dpi) also when evaluated in binary64 (C15_native, C15_native_float), a TIFF without XResolution sized at 72 dpi (C15_native_tiff_without_resolution), scale: none->native, both->unchanged, 0 is None, one given -> |cy*W-cx*H| <= |W|/2 + 3*2^-53*|cx*H| for any rounding with 2^-53 relative error and for the model's fl64 unconditionally (C15_scale, C15_fl64_premises, C15_scale_fl64). Tie: ~20k unit cases + 615 deck histories (quick) / ~210k + 5090 (thorough) of generated PNG/JPEG/GIF/BMP/TIFF/EMF/WMF images added as pictures, placeholder pictures, movie posters and OLE icons by path/stream/misleading name across slides with save/re-open, plus 15 corpus decks, compared with the extracted model (0 diffs); oracle on the saved zip: one member per distinct input, bytes identical, extension/content type of the sniffed format, default size from the file's own resolution, aspect within rounding.",
+    "note": "Pillow's report for a byte string (format, size, dpi entry, presence of tag 282) and SHA-1 are inputs/parameters of the model; CPython binary64 = fl64 is validated bit-exactly each run, not proved; save/load as identity on (name, bytes, content type) is C01; removal of slides/shapes/relationships is outside the histories; images beyond 1202440 px per side are outside C15_native_float. Two defects found by this check (TIFF without resolution sized at 1 dpi; EMF stored as .wmf/image/x-wmf) were fixed in parts/image.py and their oracle signatures stay active.",
+    "ref": "6/C15",
+}
